@@ -123,8 +123,6 @@ Proof. intros A. now rewrite (is_duplicate_dup_check R s b A). Qed.
 
 (* every evaluation of a history starts from the empty de-duplication state, whatever the earlier ones left behind: its answer is
    the answer of the query on its own (the reset in the finally clause of An.evaluate / The.evaluate is read from the source) *)
-Lemma evaluation_resets : evaluation_resets_dedup_state = true.
-Proof. reflexivity. Qed.
 Lemma run_queryD_from_DL h dom sel c : run_queryD_from h dom DL sel c = run_queryD h dom sel c.
 Proof. reflexivity. Qed.
 Lemma evaluation_resets_at_start : evaluation_resets_dedup_state_at_start = true.
